@@ -17,7 +17,8 @@ CLAIMS = {
                 "patterns, that BinOpKind::const_eval / UnOpKind::const_eval (the single operator table shared by the const "
                 "folder, the const-var evaluator and the VM) equal spec functions written from the property text: wrapping "
                 "32-bit arithmetic, truncating / and %, shift counts mod 32, arithmetic vs logical right shift, IEEE single "
-                "+ - * / and comparisons, C-style ! && ||, truncating casts, and that x/0 and x%0 have no compile-time value. "
+                "+ - * / and comparisons, C-style ! && ||, truncating casts and sigil reads, literal<->value round trip of the folder, and that x/0 "
+                "and x%0 have no compile-time value. "
                 "Also negate_comparison and op= -> binop. This is the only place where a wrong shared operator table - "
                 "invisible to tests that compare the folder with the VM - is decided against an independent spec.",
         "note": "Not decided: the two tree walkers (folding order, ternary selection, const chains, cycles), float % and "
@@ -30,7 +31,7 @@ CLAIMS = {
     "C14": {
         "text": "PARTIAL SCOPE (second sentence of the property only). Proves the set algebra of BitSet32 (Verus, unbounded, on the "
                 "verbatim text; Kani for with_upper_bound/complement/iterator), and for the helpers elaborate_diff_switches is built "
-                "from: explicit_case_bitmasks partitions {0..n} (exactly one emitted copy applies per difficulty), "
+                "from: the flag partition difficulty_bits/aux_bits, explicit_case_bitmasks partitions {0..n} (exactly one emitted copy applies per difficulty), "
                 "select_diff_switch_case is the explicit case at the largest index <= d and is constant on every mask (the copy "
                 "carries that difficulty's values), update computes (n, E), switch_from_explicit_cases is its inverse. n <= 8 is "
                 "the structural maximum, so these are complete.",
@@ -58,8 +59,11 @@ CLAIMS.update({
                 "of the written bytes returns the same instruction field for field, consumes exactly instr_size bytes, and the stored "
                 "size field equals the true size as the reader interprets it (blob length symbolic up to 70000); values that do not "
                 "fit are rejected by guards whose own contract (Ok(v) iff representable) is proved on the real function; the end marker "
-                "is recognised. Tests only use everyday values; the narrowing casts this found were silent (exit 0).",
-        "note": "Not decided: file-level tables/counts/offsets/strings (IndexMap + seek code), argument values inside the blob (C12), "
+                "is recognised. Also: jump-offset encodings (encode_label/decode_label inverse for every pair of offsets below 2^31, "
+                "four encodings), the ANM entry header (both layouts, every field, with its own guard), ANM sprite entries and STD quads "
+                "(bit-exact floats). Tests only use everyday values; the narrowing casts this found were silent (exit 0).",
+        "note": "Not decided: the remaining file-level tables/counts/offsets/strings (anm write_entry offset patching, std object/instance "
+                "tables, msg script table, ecl sub/timeline tables and string lists: IndexMap + seek code), argument values inside the blob (C12), "
                 "the script-level read/write loops, diagnostics rendering. Round trips use blobs of concrete length 4 (quick) and 0, 12 "
                 "(thorough): a symbolic length makes the reader's EOF path reachable and CBMC diverges. Known finding: TH06/07 timeline "
                 "instruction (time -1, arg0 4) is spelled like the end marker. Trusted: stubs for fmt::format, ErrorReported::new, "
@@ -88,7 +92,8 @@ CLAIMS.update({
     },
     "C15": {
         "text": "PARTIAL SCOPE (byte-level leaves). Proves the mask stream step and closed form, xor masking being bytewise and an "
-                "involution, null_pad (positive multiple of the block, prefix kept, NUL tail; also unbounded by Verus), trim_first_nul "
+                "involution, null_pad (positive multiple of the block, prefix kept, NUL tail; also unbounded by Verus), encode_fixed_size "
+                "(accepts exactly when the ENCODED bytes plus a NUL fit, whatever the transcoder returns), trim_first_nul "
                 "(exact prefix before the first NUL), write_cstring/read_cstring_blockwise round trip, and - leaves composed in the "
                 "harness in encode_args/decode_args order - that block-padded and fixed-buffer (with/without terminator) strings come "
                 "back byte for byte for every NUL-free text and every mask triple.",
